@@ -80,9 +80,16 @@ def run_impl(case):
         src = os.path.join(d, "in.dat")
         with open(src, "wb") as fh:
             fh.write(raw)
-        extra = (case["linesize"],) if case["family"] == "register" and binary else ()
-        f_path = F.read(src, *extra)
-        f_mem = F.read(content, *extra)
+        # the peek window of a binary register file: positional or keyword argument (a keyword travels
+        # through **kwargs all the way down to the elements)
+        extra, kw = (), {}
+        if case["family"] == "register" and binary:
+            if case.get("linesize_kw"):
+                kw = {"linesize": case["linesize"]}
+            else:
+                extra = (case["linesize"],)
+        f_path = F.read(src, *extra, **kw)
+        f_mem = F.read(content, *extra, **kw)
         checks = {}
         e_path, e_mem = elems_of(case, f_path, classes), elems_of(case, f_mem, classes)
         # NaN payloads compare unequal to themselves (known finding K1 of C15, IEEE semantics):
@@ -119,8 +126,8 @@ def run_impl(case):
             checks["caller_tempfile_wrapper_left_open"] = not tmp.closed
         checks["caller_tempfile_wrapper_receives_memory_output"] = got == mem_out
         # round trip through disk = round trip through memory
-        f_disk_rt = F.read(dst, *extra)
-        f_mem_rt = F.read(mem_out, *extra)
+        f_disk_rt = F.read(dst, *extra, **kw)
+        f_mem_rt = F.read(mem_out, *extra, **kw)
         e_disk_rt, e_mem_rt = elems_of(case, f_disk_rt, classes), elems_of(case, f_mem_rt, classes)
         rt_nan = json.dumps({"f": codec.NAN_BITS}) in json.dumps(e_mem_rt)  # the re-read payload itself may decode to NaN (K1)
         checks["disk_roundtrip_equals_memory_roundtrip"] = (rt_nan or bool(f_disk_rt == f_mem_rt)) and e_disk_rt == e_mem_rt
@@ -189,7 +196,10 @@ def random_case(rng):
             c = None
             while c is None or not (c["family"] == "register" and c["binary"]):
                 c = c18.random_case(rng)
-            case.update({"regs": c["regs"], "linesize": c["linesize"], "x": [b for b in c["x"] if b < 128]})
+            case.update({"regs": c["regs"], "linesize": c["linesize"], "x": [b for b in c["x"] if b < 128], "linesize_kw": rng.random() < 0.5})
+            if rng.random() < 0.12:
+                # a file larger than any I/O buffer (the records are not buffer-aligned)
+                case["x"] = (case["x"] * (9000 // max(1, len(case["x"])) + 2))[:12000] if case["x"] else case["x"]
         else:
             from props import c12
 
